@@ -27,7 +27,10 @@ RULE = ('templates built from segment lists: literal runs (ASCII, unicode incl. 
         'MAX_COLLECTION_SIZE / MAX_VAR_DEPTH (budget spent by the frame before the template is processed) and extra '
         'watches — the message must not depend on collection limits; a schedule stream: two threads with different '
         'frames at one tracepoint, each parked inside a `gate()` field of the template, all 6 interleavings forced — '
-        'each message must be rendered from its own frame and each snapshot carry exactly its own LOG watches. '
+        'each message must be rendered from its own frame and each snapshot carry exactly its own LOG watches; a '
+        'multi-tracepoint stream: 2-3 tracepoints on one line (snapshot / log / snapshot+log in any order, merged into '
+        'one trigger or separate) with the snapshot push of chosen tracepoints refused and / or the logger raising for '
+        'chosen tracepoints — every other log tracepoint must still emit exactly its one message. '
         'Non-trivial: at least one field and one literal run, or a malformed template. Distinct = distinct canonical '
         'JSON of the case.')
 TRUSTED = ['Python str / repr / ascii / format on live values is the reference for a field\'s text',
@@ -137,12 +140,35 @@ def gen_conc(rng, k):
             'sched': list(SCHEDULES[k % len(SCHEDULES)])}
 
 
+def gen_multi(rng):
+    """2-3 tracepoints on ONE line (snapshot / log / snapshot+log in any order); the push of chosen tracepoints is
+    refused and / or the logger raises for chosen tracepoints' messages"""
+    n = rng.choice([2, 2, 3])
+    tps = []
+    for i in range(n):
+        kind = rng.choice(['snap', 'log', 'snaplog', 'log'])
+        segs = [['lit', 'tp%d:' % i]] + gen_segs(rng)[:4]
+        tps.append({'kind': kind, 'segs': segs if kind != 'snap' else []})
+    if not any(t['kind'] != 'snap' for t in tps):
+        tps[-1] = {'kind': 'log', 'segs': [['lit', 'tp%d:' % (n - 1)], ['field', 'n', None, '']]}
+    pushers = [i for i, t in enumerate(tps) if t['kind'] != 'log']
+    loggers = [i for i, t in enumerate(tps) if t['kind'] != 'snap']
+    push_fail = [i for i in pushers if rng.random() < 0.6]
+    log_fail = [i for i in loggers if rng.random() < 0.3]
+    return {'kind': 'multi', 'install': rng.choice(['merged', 'separate']), 'tps': tps, 'push_fail': push_fail,
+            'log_fail': log_fail, 'mode': 'multi', 'via': 'mock', 'logger': 'rec',
+            'cfg': {'fire_count': '1', 'fire_period': '1000'}, 'hits': [rng.randint(1, 10 ** 6)]}
+
+
 def gen(rng, tier):
     k = 0
     while True:
         k += 1
         if k % 7 == 0:
             yield gen_limits(rng)
+            continue
+        if k % 9 == 0:
+            yield gen_multi(rng)
             continue
         if k % 11 == 0:
             yield gen_conc(rng, k // 11)
@@ -183,6 +209,14 @@ def corpus():
         dict(b, kind='tpl', via='real', limits={'MAX_VARIABLES': 1, 'MAX_STRING_LENGTH': 1, 'MAX_COLLECTION_SIZE': 0,
                                                 'MAX_VAR_DEPTH': 0}, watches=[],
              segs=[['field', 'twice(s)', None, ''], ['lit', '|'], ['field', 'o.name', 'r', '>8'], ['field', 'lst', None, '']]),
+        # a refused snapshot push of the first tracepoint must not lose the second tracepoint's message
+        {'kind': 'multi', 'install': 'separate', 'mode': 'multi', 'via': 'mock', 'logger': 'rec',
+         'cfg': {'fire_count': '1', 'fire_period': '1000'}, 'hits': [100], 'push_fail': [0], 'log_fail': [],
+         'tps': [{'kind': 'snap', 'segs': []}, {'kind': 'log', 'segs': [['lit', 'tp1: n='], ['field', 'n', None, '']]}]},
+        {'kind': 'multi', 'install': 'merged', 'mode': 'multi', 'via': 'mock', 'logger': 'rec',
+         'cfg': {'fire_count': '1', 'fire_period': '1000'}, 'hits': [100], 'push_fail': [1], 'log_fail': [0],
+         'tps': [{'kind': 'log', 'segs': [['lit', 'tp0']]}, {'kind': 'snaplog', 'segs': [['lit', 'tp1 '], ['field', 's', None, '']]},
+                 {'kind': 'log', 'segs': [['lit', 'tp2 '], ['field', 'nope', None, '']]}]},
         # two threads inside process_log at once
         {'kind': 'conc', 'mode': 'snap', 'via': 'mock', 'logger': 'rec', 'cfg': {'fire_count': '-1', 'fire_period': '0'},
          'hits': [100], 'sched': [0, 1, 1, 0],
@@ -216,6 +250,67 @@ def build_log_trigger(case, path, line):
             acts.append(LocationAction(a.id, a.condition, cfg, a.action_type))
         trig = Trigger(LineLocation(path, line, Location.Position.START), acts)
     return trig
+
+
+class FaultyLogger(RecLogger):
+    """recording logger that raises for the messages of chosen tracepoints"""
+
+    def __init__(self, fail_ids):
+        super().__init__()
+        self.fail_ids = set(fail_ids)
+        self.attempts = []
+
+    def log_tracepoint(self, log_msg, tp_id, ctx_id):
+        self.attempts.append(tp_id)
+        if tp_id in self.fail_ids:
+            raise RuntimeError('logger failure for ' + str(tp_id))
+        super().log_tracepoint(log_msg, tp_id, ctx_id)
+
+
+def run_multi(case):
+    from deep.api.tracepoint.trigger import build_trigger
+    logger = FaultyLogger('tp%d' % i for i in case['log_fail'])
+    rig = Rig(logger=False, plugins=[logger])
+    try:
+        name = X.unique('verif_host_c16')
+        mod = X.make_module(name, GLOBALS)
+        trigs = []
+        for i, tp in enumerate(case['tps']):
+            args = {'fire_count': case['cfg']['fire_count'], 'fire_period': case['cfg']['fire_period']}
+            if tp['kind'] != 'snap':
+                args['log_msg'] = write_template(tp['segs'])
+            if tp['kind'] == 'log':
+                args['snapshot'] = 'no_collect'
+            trigs.append(build_trigger('tp%d' % i, name + '.py', 7, args, [], []))
+        if case['install'] == 'merged':
+            for t in trigs[1:]:
+                trigs[0].merge_actions(t.actions)
+            trigs = trigs[:1]
+        rig.install(trigs)
+        refused = {'tp%d' % i for i in case['push_fail']}
+        push_attempts, orig_push = [], rig.push.push_snapshot
+
+        def push(snap):
+            push_attempts.append(snap.tracepoint.id)
+            if snap.tracepoint.id in refused:
+                raise RuntimeError('push refused for ' + snap.tracepoint.id)
+            orig_push(snap)
+        rig.push.push_snapshot = push
+        rig.clock = case['hits'][0]
+        obs = {}
+        loc = {k: X.build_value(v) for k, v in LOCALS}
+        try:
+            rig.handler.trace_call(MockFrame('/app/%s.py' % name, 'host', 7, loc, f_globals=mod.__dict__), 'line', None)
+        except BaseException as e:  # noqa: B902
+            obs['raised'] = f'{type(e).__name__}: {e}'
+        obs['messages'] = [[c[1], c[0], canon_id(c[2])] for c in logger.logged]
+        obs['log_attempts'] = list(logger.attempts)
+        obs['pushed'] = [sn.tracepoint.id for sn in rig.push.pushed]
+        obs['push_attempts'] = list(push_attempts)
+        obs['hits'] = []
+        return obs
+    finally:
+        rig.close()
 
 
 def variant(v):
@@ -375,6 +470,8 @@ def canon_id(s):
 def run_impl(case):
     if case['kind'] == 'conc':
         return run_conc(case)
+    if case['kind'] == 'multi':
+        return run_multi(case)
     default = case['logger'] == 'default'
     plugins = []
     cap = None
@@ -555,7 +652,36 @@ def outside_statement(segs):
     return any(s[0] == 'field' and (s[1] == '' or '{' in s[3] or '}' in s[3]) for s in segs)
 
 
+def oracle_multi(case, obs):
+    """each log tracepoint of the line emits exactly one message at the permitted hit — whatever happens to the
+    results of the OTHER tracepoints (refused pushes, a logger that raises for another tracepoint's message)"""
+    if 'raised' in obs:
+        return ['the agent raised into the host: ' + obs['raised']]
+    v = []
+    for i, tp in enumerate(case['tps']):
+        if tp['kind'] == 'snap' or i in case['log_fail']:
+            continue
+        exp = ref_render(tp['segs'])
+        got = [m for m in obs['messages'] if m[0] == 'tp%d' % i]
+        if exp is None:
+            if got:
+                v.append(f'tp{i}: malformed template produced {got!r}')
+            continue
+        if [m[1] for m in got] != [exp[0]]:
+            others = f'(push refused for {case["push_fail"]}, logger raising for {case["log_fail"]})'
+            v.append(f'tracepoint tp{i} ({tp["kind"]}): messages {[m[1] for m in got]!r}, expected exactly '
+                     f'{[exp[0]]!r} {others}')
+        elif got[0][2] != '<ctx>':
+            v.append(f'tp{i}: ctx_id {got[0][2]!r} is not the context id')
+    foreign = [m for m in obs['messages'] if m[0] not in {'tp%d' % i for i in range(len(case['tps']))}]
+    if foreign:
+        v.append(f'messages labelled with an unknown tracepoint id: {foreign!r}')
+    return v
+
+
 def oracle(case, obs):
+    if case['kind'] == 'multi':
+        return oracle_multi(case, obs)
     v = []
     for h in obs['hits']:
         if 'raised' in h:
@@ -648,6 +774,14 @@ def oracle_table(case, thread=None):
 
 
 def model_request(case, obs):
+    if case['kind'] == 'multi':
+        if 'raised' in obs:
+            return None
+        # tracepoints whose template the formatter rejects attach nothing: leave them out of the request
+        if any(tp['kind'] != 'snap' and ref_render(tp['segs']) is None for tp in case['tps']):
+            return None
+        return {'op': 'results', 'tps': [tp['kind'] for tp in case['tps']],
+                'fails': [[i, 'push'] for i in case['push_fail']] + [[i, 'log'] for i in case['log_fail']]}
     if any('raised' in h for h in obs['hits']):
         return None
     if case['kind'] == 'conc':
@@ -659,6 +793,15 @@ def model_request(case, obs):
 def compare(case, obs, resp):
     if 'error' in resp:
         return ['model error: ' + resp['error']]
+    if case['kind'] == 'multi':
+        want_log = ['tp%d' % i for i, k in resp['delivered'] if k == 'log']
+        want_push = ['tp%d' % i for i, k in resp['delivered'] if k == 'push']
+        d = []
+        if [m[0] for m in obs['messages']] != want_log:
+            d.append(f'messages delivered: model {want_log} vs implementation {[m[0] for m in obs["messages"]]}')
+        if obs['pushed'] != want_push:
+            d.append(f'snapshots delivered: model {want_push} vs implementation {obs["pushed"]}')
+        return d
     if case['kind'] == 'conc':
         # the model has no shared state between hits: each thread's hit is its own rendering
         d = []
@@ -707,6 +850,9 @@ def compare_one(case, first, resp):
 
 
 def label(case, obs):
+    if case['kind'] == 'multi':
+        return 'multi/%s/%s/faults%d' % (case['install'], '-'.join(t['kind'] for t in case['tps']),
+                                         min(2, len(case['push_fail']) + len(case['log_fail'])))
     if case['kind'] == 'conc':
         return 'conc/%s/%s' % (case['mode'], ''.join(map(str, case['sched'])))
     segs = case['segs'] if case['kind'] == 'tpl' else ref_parse(case['tpl'])
@@ -724,6 +870,11 @@ def label(case, obs):
 
 
 def nontrivial(case, obs):
+    if case['kind'] == 'multi':
+        # a failing result is followed by a message that must still be delivered
+        first_fault = min(case['push_fail'] + case['log_fail'], default=None)
+        return first_fault is not None and any(i >= first_fault and i not in case['log_fail'] and t['kind'] != 'snap'
+                                               for i, t in enumerate(case['tps']))
     if case['kind'] == 'conc':
         return case['sched'] not in ([0, 0, 1, 1], [1, 1, 0, 0])      # the two hits overlap
     segs = case['segs'] if case['kind'] == 'tpl' else ref_parse(case['tpl'])
@@ -733,6 +884,19 @@ def nontrivial(case, obs):
 
 
 def shrink(case):
+    if case['kind'] == 'multi':
+        for key in ('push_fail', 'log_fail'):
+            for x in case[key]:
+                c = dict(case)
+                c[key] = [y for y in case[key] if y != x]
+                yield c
+        for i, tp in enumerate(case['tps']):
+            for j in range(1, len(tp['segs'])):
+                c = dict(case)
+                c['tps'] = list(case['tps'])
+                c['tps'][i] = dict(tp, segs=tp['segs'][:j] + tp['segs'][j + 1:])
+                yield c
+        return
     if len(case['hits']) > 1:
         c = dict(case)
         c['hits'] = case['hits'][:1]
